@@ -498,6 +498,25 @@ func runTextInput(w *harness.W, e *tiEnv, hc hcase, sample bool) {
 				w.Violation("textinput:drawn-cursor-column", fmt.Sprintf("text %q cursor %d: drawn cursor visible=%v at column %d, expected %d (prompt 2 + text before the cursor)", m.text(), m.cursor, vis, col, 2+before), hc, fmt.Sprint(col), fmt.Sprint(2+before))
 				return
 			}
+			// the same text as a password (one narrow substitute per
+			// grapheme): the cursor column is still the width of the text
+			// before the cursor (C17-q)
+			val, stack, panicked = harness.Recover(func() {
+				ti.SetInvisibleChar("*")
+				e.sess.Vx.HideCursor()
+				ti.Draw(win)
+			})
+			if panicked {
+				w.ViolationStack("panic:"+harness.PanicKey(val, stack), fmt.Sprintf("textinput.Draw (password) panicked at width %d: %s", width, val), hc, val, "no panic", stack)
+				return
+			}
+			w.Count("textinput_password_draws", 1)
+			e.sess.Vx.Render()
+			e.sess.Con.With(func() { col, vis = e.sess.Term.C, e.sess.Term.CursorVisible })
+			if !vis || col != 2+before {
+				w.Violation("textinput:drawn-cursor-column:password", fmt.Sprintf("text %q cursor %d shown as a password: drawn cursor visible=%v at column %d, expected %d (prompt 2 + width of the text before the cursor)", m.text(), m.cursor, vis, col, 2+before), hc, fmt.Sprint(col), fmt.Sprint(2+before))
+				return
+			}
 		}
 	}
 	if sample {
